@@ -236,7 +236,7 @@ def renderStructLine (f : Field) (ctx : ImplContext) (hint : TypeHint) (idx : Na
     let idnt := match parentChild with | some g => g.thisMember | none => f.member
     return idnt.toTS ++ [colon] ++ rightSide ++ [comma]
   | .named ident, some attr, .from_, .tuple => do
-    let rightSide ← attr.getStuff obj getFieldPath ctx (if ctx.isVariant then fIdent f.idx else f.member)
+    let rightSide ← attr.getStuff obj getFieldPath ctx (if ctx.isVariant then fIdent f.idx else .unnamed f.idx)
     return [i ident, colon] ++ rightSide ++ [comma]
   | .unnamed index, some attr, .into, .tuple | .unnamed index, some attr, .into, .unspecified => do
     let ix := if ctx.isVariant then fIdent index else f.member
